@@ -1,6 +1,7 @@
 SPECIFICATION Spec
 CONSTANTS
   Deviations <- AllDevs
+  Ranks <- R2
   Big = FALSE
 INVARIANT NeverWrong
 CHECK_DEADLOCK FALSE
